@@ -1477,7 +1477,7 @@ func genC06out(r *Rng, n int, tier string) {
 			// proto.Unmarshal of mutated wire bytes of a random message / of random bytes
 			var b []byte
 			if r.Bool() {
-				b, _ = proto.Marshal(randOutMsg(r, 60, false, false))
+				b, _ = proto.MarshalOptions{Deterministic: true}.Marshal(randOutMsg(r, 60, false, false))
 				k := r.Range(1, 4)
 				for j := 0; j < k && len(b) > 0; j++ {
 					switch r.Intn(3) {
